@@ -687,7 +687,30 @@ def _run_e2c(prog, rep):
                             rep.violation("E2.c", "%s :: Cancelled arm" % c.id, c.loc(), "with_context can wrap a Cancelled error into InContext")
     if not ok3:
         rep.violation("E2.c", "anchor-lost:with_context Cancelled arm", "", "no switch arm for ExecutionError::Cancelled found in with_context")
+    # … and no wrapping arm is tried *before* the Cancelled arm: every construction of InContext in with_context happens on an edge
+    # that has already excluded Cancelled (a non-Cancelled variant arm, or the fall-through of a switch that lists Cancelled)
+    from ..lib.cfgq import dominating_guards as _dg
+    for f in wc:
+        for c in [f] + prog.closures_of(f):
+            body = c.body
+            tr = Tracer(body)
+            for b in sorted(body.reachable()):
+                for st in body.blocks[b]["stmts"]:
+                    if not (st["k"] == "assign" and st["rv"]["k"] == "aggregate" and st["rv"].get("variant") == "InContext"):
+                        continue
+                    excluded = False
+                    for g in _dg(body, tr, b):
+                        sw = switch_edges(body, tr, g.src)
+                        variants = {e.variant for e in sw if e.variant}
+                        if "Cancelled" not in variants:
+                            continue
+                        if (g.variant and g.variant != "Cancelled") or (g.variant is None):
+                            excluded = True
+                    rep.check(excluded, "E2.c", "%s :: wrap only after Cancelled is excluded #%d" % (c.id, b), sp_str(st["sp"]),
+                              "this InContext is built on an edge of the switch that lists Cancelled, other than the Cancelled edge",
+                              "with_context builds InContext before the error was tested for Cancelled: a cancellation that passes this wrapper comes out wrapped")
     return n_polls, n_sites, canc
+
 
 
 def _handler_calls(prog, body, pred):
